@@ -106,6 +106,7 @@ def run(ctx):
         "decoders must reference the same table. State machines/padding are not decided."
     )
     rule_tab(ctx, F)
+    rule_encbits(ctx, F)
 
     # ---- siblings
     R = "C18.sib"
@@ -836,3 +837,89 @@ def rule_eofguard(ctx, F):
                    "%s stores a symbol at buf[self.next] on a path on which `next` may be the end-of-data marker (0x%X): one "
                    "surplus `=` after a complete padded group indexes the 4-octet buffer at 240 -- a panic instead of "
                    "'trailing data'" % (path.split("::")[-2] + "::" + path.split("::")[-1], eof), b.where(bi))
+
+
+# ---------------------------------------------------------------------------
+# C18.encbits: bit layout of the symbols the encoders write
+# ---------------------------------------------------------------------------
+
+def _bitvec(t, depth=0):
+    """value of an octet expression as 8 symbolic bits (LSB first): each bit is None (zero) or (source octet index,
+    source bit); None for the whole if the shape is unknown or two sources meet in one bit"""
+    t = deep_strip(t)
+    if depth > 20:
+        return None
+    cv = const_value(t)
+    if cv is not None and isinstance(cv, int):
+        return ("const", cv)
+    if t[0] == "idx":
+        i = const_value(deep_strip(t[2]))
+        if i is None:
+            return None
+        return [(i, bit) for bit in range(8)]
+    if t[0] == "cast":
+        return _bitvec(t[2], depth + 1)
+    if t[0] == "bin":
+        op = t[1].replace("Unchecked", "")
+        a, c = _bitvec(t[2], depth + 1), _bitvec(t[3], depth + 1)
+        if a is None or c is None:
+            return None
+        if op == "BitAnd":
+            if isinstance(a, tuple) and isinstance(c, list):
+                a, c = c, a
+            if isinstance(a, list) and isinstance(c, tuple):
+                return [a[j] if (c[1] >> j) & 1 else None for j in range(8)]
+            return None
+        if op in ("Shl", "Shr") and isinstance(a, list) and isinstance(c, tuple):
+            k = c[1]
+            if op == "Shl":
+                return ([None] * k + a)[:8]
+            return (a[k:] + [None] * k)[:8]
+        if op == "BitOr" and isinstance(a, list) and isinstance(c, list):
+            out = []
+            for x, y in zip(a, c):
+                if x is not None and y is not None:
+                    return None
+                out.append(x if x is not None else y)
+            return out
+    return None
+
+
+def rule_encbits(ctx, F):
+    """RFC 4648: symbol k of a group is bits [g*k, g*k+g) of the group's octets taken MSB first (g = 5 or 6), zero
+    filled behind the last octet of a tail.  Every value the Base 32 / Base 64 encoders hand to their alphabet
+    helper is evaluated to symbolic bits and has to be exactly that, for some k and some number of octets present."""
+    R = "C18.encbits"
+    ctx.floor(R, 20)
+    n = 0
+    for p, b in sorted(F.bodies.items()):
+        m = re.match(r"^<?utils::base(32|64)::", p)
+        if not m or "::test" in p:
+            continue
+        g, per = (5, 5) if m.group(1) == "32" else (6, 3)
+        for bb, t in b.calls():
+            if not re.search(r"::ch$", t["fn"] or "") or not t["args"]:
+                continue
+            tm = b.term_of_operand(t["args"][0])
+            if not any(s_[0] == "idx" for s_ in walk(deep_strip(tm))):
+                continue
+            n += 1
+            bv = _bitvec(tm)
+            ok, which = False, None
+            if isinstance(bv, list) and all(x is None for x in bv[g:]):
+                for k in range((per * 8 + g - 1) // g):
+                    for L in range(1, per + 1):
+                        exp = []
+                        for j in range(g):
+                            q = g * k + (g - 1 - j)
+                            i, bit = q // 8, 7 - q % 8
+                            exp.append((i, bit) if i < L else None)
+                        if exp == bv[:g] and any(x is not None for x in exp):
+                            ok, which = True, (k, L)
+            ctx.ob(R, b, "symbol#%d carries the bits RFC 4648 assigns to it" % n, ok,
+                   "base%s encoder (%s) writes a symbol computed as %s, whose bits %s are not those of any symbol position of "
+                   "a %d-octet group: some inputs encode to the text of a different input (decode(encode(x)) != x)"
+                   % (m.group(1), p.split("::")[-1], show(deep_strip(tm))[:110],
+                      "cannot be determined" if not isinstance(bv, list) else [x for x in bv[:g]], per),
+                   b.where(bb), detail=("symbol %d of a group with %d octet(s)" % which) if which else None)
+    ctx.call_sites += n
